@@ -11,7 +11,7 @@ COQ = '/verif/coq'
 # property -> list of (pinned theorem name, module, lemma)
 TABLE = {
  'C01': [
-  ('C01_closed_u64', 'Instances', 'run_refines_u64'), ('C01_closed_h256', 'Instances', 'run_refines_h256'), ('C01_nonvacuous_state', 'Instances', 'example_written'), ('C01_initial_state', 'Instances', 'SysInv_initial'),
+  ('C01_closed_u64', 'Instances', 'run_refines_u64'), ('C01_closed_h256', 'Instances', 'run_refines_h256'), ('C01_closed_nested', 'NestedP', 'run_refines_nl'), ('C01_nonvacuous_state', 'Instances', 'example_written'), ('C01_initial_state', 'Instances', 'SysInv_initial'),
   ('C01_get', 'IfaceP', 'iface_get_spec'), ('C01_len', 'IfaceP', 'iface_len_spec'),
   ('C01_get_mut_write', 'IfaceP', 'get_mut_write_spec'), ('C01_push', 'IfaceP', 'push_spec_list'),
   ('C01_push_full', 'IfaceP', 'push_spec_full'), ('C01_bulk', 'IfaceP', 'bulk_spec'),
@@ -22,7 +22,7 @@ TABLE = {
   ('C01_step_refines', 'Refine', 'step_refines'), ('C01_run_refines', 'Refine', 'run_refines'), ('C01_spec_det', 'Refine', 'spec_det'),
  ],
  'C02': [
-  ('C02_closed_h256', 'Instances', 'root_h256'), ('C02_scenario', 'Instances', 'scenario_spec'),
+  ('C02_closed_h256', 'Instances', 'root_h256'), ('C02_nested_element_root_is_ssz', 'NestedP', 'mroot_is_merkle'), ('C02_nested_element_root_is_inner_list_root', 'NestedP', 'nl_root_is_inner_list_root'), ('C02_scenario', 'Instances', 'scenario_spec'),
   ('C02_canon_merkle', 'HashP', 'shash_canon_merkle'), ('C02_merkleize_pad', 'HashP', 'merkleize_pad'),
   ('C02_depth', 'HashP', 'depth_is_chunk_depth'), ('C02_tree_hash', 'HashP', 'tree_hash_exact'),
   ('C02_root', 'HashP', 'root_is_ssz_hinv'), ('C02_root_run', 'HashP', 'root_is_ssz_run'),
@@ -112,7 +112,7 @@ TABLE = {
   ('C13_de_vec', 'CollObsP', 'vector_serde_de_ok'), ('C13_de_vec_wrong_len', 'CollObsP', 'vector_serde_de_fail'), ('C13_ser_refines', 'RefineB', 'refines_OSerdeSer'), ('C13_de_refines', 'RefineB', 'refines_OSerdeList'), ('C13_de_vec_refines', 'RefineB', 'refines_OSerdeVec'), ('C13_de_eq', 'CodecP', 'list_serde_de_eq'),
  ],
  'C14': [
-  ('C14_closed_u64', 'Instances', 'maps_unobservable_u64'),
+  ('C14_closed_u64', 'Instances', 'maps_unobservable_u64'), ('C14_closed_nested', 'NestedP', 'maps_unobservable_nl'),
   ('C14_vecmap', 'UMapP', 'vecmap_lawful'), ('C14_btmap', 'UMapP', 'btmap_lawful'), ('C14_maxmap', 'UMapP', 'maxmap_lawful'),
   ('C14_get', 'IfaceP', 'iface_get_spec'), ('C14_len', 'IfaceP', 'iface_len_spec'), ('C14_flush', 'WulP', 'wul_canon'),
   ('C14_bulk', 'IfaceP', 'bulk_spec'), ('C14_needs_exact_max', 'IfaceP', 'bulk_update_needs_max_exact'),
@@ -134,6 +134,8 @@ TABLE = {
   ('C16_run_is_a_schedule', 'ConcP', 'conc_run_agree'), ('C16_confluent', 'ConcP', 'tree_hash_pool_confluent'),
   ('C16_deterministic', 'ConcP', 'tree_hash_pool_deterministic'), ('C16_final_table', 'ConcP', 'tree_hash_pool_final_table'),
   ('C16_mvalid_always', 'ConcP', 'tree_hash_pool_mvalid'), ('C16_private_ops_demonic', 'RebaseP', 'coll_rebase_on_dem'), ('C16_par_hash_refines', 'RefineB', 'refines_OParHash'), ('C16_par_mix_refines', 'RefineB', 'refines_OParMix'), ('C16_run_final', 'ConcP', 'tree_hash_run_final'),
+  ('C16_nested_lawful', 'NestedP', 'ek_nlW_wf'), ('C16_nested_root_injective', 'NestedP', 'ek_nlW_troot_inj'),
+  ('C16_nested_par_hash', 'NestedP', 'par_hash_nl'), ('C16_nested_par_mix', 'NestedP', 'par_mix_nl'), ('C16_nested_history', 'NestedP', 'history_nl'),
  ],
  'C17': [
   ('C17_incremental', 'FinalP', 'incremental_canon'), ('C17_inc_flag_true', 'FinalP', 'finish_inc_true'), ('C17_build_eq_incremental', 'FinalP', 'build_eq_incremental'),
